@@ -254,6 +254,7 @@ type Prog struct {
 	Min   int    `json:"min"`
 	Max   int    `json:"max"`
 	Procs [][]Op `json:"procs"`
+	Reps  int    `json:"reps"` // overrides VERIF_REPS when > 0 (scaled by VERIF_REPS_SCALE percent)
 }
 
 type HOp struct {
@@ -280,11 +281,11 @@ type Hist struct {
 
 // runOnce executes the program once on a fresh object; mode selects how the
 // goroutines are released (0: yielding spin barrier, 1: no barrier, 2: barrier +
-// yields between operations, 3: busy spin barrier - tightest simultaneous start).
+// yields between operations, 3: rendezvous of the goroutines - tightest simultaneous start).
 func runOnce(p *Prog, mode int, rng *rand.Rand, stamps bool) ([]HOp, bool) {
 	obj := newObject(p.Obj, p.Min, p.Max)
 	var clock atomic.Int64
-	var gate atomic.Int32
+	var gate, arrived atomic.Int32
 	var ready sync.WaitGroup
 	var wg sync.WaitGroup
 	res := make([][]HOp, len(p.Procs))
@@ -314,9 +315,14 @@ func runOnce(p *Prog, mode int, rng *rand.Rand, stamps bool) ([]HOp, bool) {
 			defer wg.Done()
 			ready.Done()
 			if mode == 3 {
-				// bounded busy spin (an oversubscribed machine must not burn
-				// whole time slices here), then yield like mode 0
-				for n := 0; gate.Load() == 0; n++ {
+				// rendezvous of the goroutines themselves: all of them are on a CPU
+				// when the last one arrives.  Bounded busy spin (an oversubscribed
+				// machine must not burn whole time slices here), then yield.
+				for gate.Load() == 0 {
+					runtime.Gosched()
+				}
+				arrived.Add(1)
+				for n := 0; int(arrived.Load()) < len(p.Procs); n++ {
 					if n > 20000 {
 						runtime.Gosched()
 					}
@@ -406,7 +412,14 @@ func TestDrive(t *testing.T) {
 		rng := rand.New(rand.NewSource(seed*1000003 + int64(p.Pid)))
 		seen := map[string]*Hist{}
 		var order []string
-		for r := 0; r < reps; r++ {
+		n := reps
+		if p.Reps > 0 {
+			n = p.Reps
+			if sc, err := strconv.Atoi(os.Getenv("VERIF_REPS_SCALE")); err == nil && sc > 0 {
+				n = (n*sc + 99) / 100
+			}
+		}
+		for r := 0; r < n; r++ {
 			ops, ok := runOnce(&p, r%4, rng, stamps)
 			runs++
 			if !ok {
